@@ -221,11 +221,13 @@ pub struct C18Case {
     /// the merge triggered at tick k fails (its first output file name is taken); the task must keep
     /// ticking and the merge must succeed at the next tick
     pub fail_first_merge: bool,
+    /// the n-th fsync issued by the interval-sync task fails with EIO (0: none)
+    pub fail_sync_nth: usize,
 }
 
 impl C18Case {
     fn to_json(&self) -> Value {
-        json!({"engine": "vtime", "kind": "c18", "policy": format!("{:?}", self.policy), "trigger": format!("{:?}", self.trig), "k": self.k, "interval_ms": self.interval_ms, "jitter": self.jitter, "sync": match self.sync { SyncS::None => json!("none"), SyncS::Always => json!("always"), SyncS::Interval(d) => json!(d) }, "horizon": self.horizon, "fail_first_merge": self.fail_first_merge})
+        json!({"engine": "vtime", "kind": "c18", "policy": format!("{:?}", self.policy), "trigger": format!("{:?}", self.trig), "k": self.k, "interval_ms": self.interval_ms, "jitter": self.jitter, "sync": match self.sync { SyncS::None => json!("none"), SyncS::Always => json!("always"), SyncS::Interval(d) => json!(d) }, "horizon": self.horizon, "fail_first_merge": self.fail_first_merge, "fail_sync_nth": self.fail_sync_nth})
     }
     fn from_json(v: &Value) -> Option<C18Case> {
         Some(C18Case {
@@ -237,6 +239,7 @@ impl C18Case {
             sync: match &v["sync"] { Value::String(s) if s == "always" => SyncS::Always, Value::Number(n) => SyncS::Interval(n.as_u64()?), _ => SyncS::None },
             horizon: v["horizon"].as_u64()? as usize,
             fail_first_merge: v["fail_first_merge"].as_bool().unwrap_or(false),
+            fail_sync_nth: v["fail_sync_nth"].as_u64().unwrap_or(0) as usize,
         })
     }
 }
@@ -288,6 +291,7 @@ pub fn c18_case(dir: &Path, c: &C18Case) -> Result<String, V> {
     ctl_reset(vec!["bg:merge:tick"], None);
     iohook::grec_start(&dir.to_string_lossy(), true);
     let t_real = Instant::now();
+    iohook::fail_nth_fsync(c.fail_sync_nth);
     let kv = conf.open().map_err(|e| mach(format!("open: {}", e)))?;
     let h = kv.get_handle();
     let res = (|| -> Result<String, V> {
@@ -312,6 +316,42 @@ pub fn c18_case(dir: &Path, c: &C18Case) -> Result<String, V> {
             let t0 = Instant::now();
             while iohook::vnow_ms() < horizon_ms && t0.elapsed() < Duration::from_millis(if matches!(c.sync, SyncS::Interval(_)) { 400 } else { 30 }) {
                 std::thread::sleep(Duration::from_millis(1));
+            }
+            if let SyncS::Interval(d) = c.sync {
+                // nothing else drives virtual time here: the sync task alone must keep going
+                let want = c.horizon;
+                let t0 = Instant::now();
+                loop {
+                    let n = iohook::grec_snapshot().iter().filter(|x| matches!(x, Call::Fsync { path } if path.ends_with(".data"))).count();
+                    if n >= want {
+                        break;
+                    }
+                    if t0.elapsed() > Duration::from_secs(5) {
+                        return Err(("interval-sync-stops".into(), format!("{} fsyncs of a data file within 5 s real time with a sync interval of {} ms in virtual time (now {} ms); at least {} expected", n, d, iohook::vnow_ms(), want)));
+                    }
+                    std::thread::sleep(Duration::from_millis(1));
+                }
+            }
+            if c.fail_sync_nth > 0 {
+                // the failed fsync must be followed by a successful one (in virtual time the next
+                // interval is a moment away, however long it is)
+                let t0 = Instant::now();
+                loop {
+                    let log = iohook::grec_snapshot();
+                    let failed_at = log.iter().position(|x| matches!(x, Call::Mark(m) if m.starts_with("fsync-failed:")));
+                    if let Some(i) = failed_at {
+                        if log[i..].iter().any(|x| matches!(x, Call::Fsync { path } if path.ends_with(".data"))) {
+                            break;
+                        }
+                    }
+                    if t0.elapsed() > Duration::from_secs(5) {
+                        return Err(match failed_at {
+                            Some(_) => ("interval-sync-stops-after-a-failed-fsync".into(), format!("fsync number {} of the interval sync failed (EIO); no further fsync within 5 s real time (virtual now {} ms, interval {:?})", c.fail_sync_nth, iohook::vnow_ms(), c.sync)),
+                            None => ("interval-sync-never-syncs".into(), format!("fewer than {} fsyncs within 5 s real time (virtual now {} ms)", c.fail_sync_nth, iohook::vnow_ms())),
+                        });
+                    }
+                    std::thread::sleep(Duration::from_millis(1));
+                }
             }
         } else {
             for tick in 1..=c.horizon {
@@ -407,6 +447,7 @@ pub fn c18_case(dir: &Path, c: &C18Case) -> Result<String, V> {
         if let SyncS::Interval(d) = c.sync {
             let mut vt = 0i64;
             let mut fsyncs: Vec<i64> = vec![];
+            let mut failed_syncs = 0usize;
             for x in &log {
                 match x {
                     Call::Mark(m) => {
@@ -416,6 +457,13 @@ pub fn c18_case(dir: &Path, c: &C18Case) -> Result<String, V> {
                     }
                     Call::Fsync { path } if path.ends_with(".data") => fsyncs.push(vt),
                     _ => {}
+                }
+                // a failed attempt shows that the task kept its schedule at that moment
+                if let Call::Mark(m) = x {
+                    if m.starts_with("fsync-failed:") {
+                        fsyncs.push(vt);
+                        failed_syncs += 1;
+                    }
                 }
             }
             let end = iohook::vnow_ms();
@@ -430,12 +478,16 @@ pub fn c18_case(dir: &Path, c: &C18Case) -> Result<String, V> {
             if end as f64 > d as f64 + slack && fsyncs.is_empty() {
                 return Err(("interval-sync-never-syncs".into(), format!("virtual {} ms elapsed, no fsync", end)));
             }
+            if c.fail_sync_nth > 0 && failed_syncs == 0 && fsyncs.len() >= c.fail_sync_nth {
+                return Err(mach(format!("the {}-th fsync was to fail but {} went through", c.fail_sync_nth, fsyncs.len())));
+            }
             sync_note = format!(" fsyncs={}", fsyncs.len().min(99));
         }
         Ok(format!("{:?}/{:?} merges={}{}", c.policy, c.trig, go_events, if sync_note.is_empty() { "" } else { " sync" }))
     })();
     // tear down: no more holds, drop the store, the worker must go away
     ctl_disable();
+    iohook::fail_nth_fsync(0);
     drop(h);
     drop(kv);
     let gone = wait_bg_gone(Duration::from_secs(5));
@@ -479,7 +531,7 @@ fn c18_cases(tier: Tier) -> Vec<C18Case> {
                             if policy == Policy::Never && jitter != 0.3 {
                                 continue;
                             }
-                            v.push(C18Case { policy, trig, k, interval_ms, jitter, sync, horizon, fail_first_merge: false });
+                            v.push(C18Case { policy, trig, k, interval_ms, jitter, sync, horizon, fail_first_merge: false, fail_sync_nth: 0 });
                         }
                     }
                 }
@@ -491,14 +543,18 @@ fn c18_cases(tier: Tier) -> Vec<C18Case> {
         for interval_ms in [1000u64, 180_000] {
             for trig in [Trig::DeadBytes, Trig::Frag] {
                 for sync in [SyncS::None, SyncS::Interval(interval_ms / 3)] {
-                    v.push(C18Case { policy: Policy::Always, trig, k, interval_ms, jitter: 0.3, sync, horizon, fail_first_merge: true });
+                    v.push(C18Case { policy: Policy::Always, trig, k, interval_ms, jitter: 0.3, sync, horizon, fail_first_merge: true, fail_sync_nth: 0 });
                 }
             }
         }
     }
     // sync strategies on their own (merge never): interval 1 ms, 500 ms, 10 min
     for d in [1u64, 500, 600_000] {
-        v.push(C18Case { policy: Policy::Never, trig: Trig::None, k: 1, interval_ms: d * 4, jitter: 0.0, sync: SyncS::Interval(d), horizon: tier.pick(5, 10), fail_first_merge: false });
+        v.push(C18Case { policy: Policy::Never, trig: Trig::None, k: 1, interval_ms: d * 4, jitter: 0.0, sync: SyncS::Interval(d), horizon: tier.pick(5, 10), fail_first_merge: false, fail_sync_nth: 0 });
+        // a background fsync that fails must not end the periodic sync: the next interval syncs again
+        for nth in [1usize, 2, 3] {
+            v.push(C18Case { policy: Policy::Never, trig: Trig::None, k: 1, interval_ms: d * 4, jitter: 0.0, sync: SyncS::Interval(d), horizon: tier.pick(5, 10), fail_first_merge: false, fail_sync_nth: nth });
+        }
     }
     v
 }
